@@ -275,12 +275,17 @@ func Spec(big int) []Node {
 	} {
 		ns = append(ns, n)
 	}
-	// a changelog with an entry that has no date (and one without packager)
+	// a changelog with an entry dated by day only, one that has no date (and one without packager)
 	ns = append(ns, Node{Rel: "changelog-undated.yaml", Kind: "file", Mode: 0o644, Data: []byte(`- semver: "1.1.0"
   date: "2009-12-08T22:00:00Z"
   packager: "Jane Roe <jane@example.com>"
   changes:
     - note: "dated entry"
+- semver: "1.0.5"
+  date: 2009-11-20
+  packager: "Jane Roe <jane@example.com>"
+  changes:
+    - note: "entry dated with a day only (midnight UTC, whatever the zone of the build host)"
 - semver: "1.0.0"
   packager: "Jane Roe <jane@example.com>"
   changes:
